@@ -379,3 +379,100 @@ theorem C17_bounded_work {m : Mode} {k : Nat} {t0 D : Time} {s s' : State} {ls :
   bounded_work h hD hsub hnp hr
 
 end KcpVerif.Props
+
+namespace KcpVerif.Props
+open KcpVerif KcpVerif.Sched
+
+/-! ### non-vacuity of the liveness theorem: a concrete fair run with a task -/
+
+/-- one worker; the start-up timer value is consumed, task 1 (deadline 5) is submitted at time 0,
+    pushed, the timer armed for 5; at time 6 it fires, the task runs; then only time passes -/
+def fairPrefix : List Label :=
+  [ .w 0 (.fire 0), .w 0 .recvTimer, .w 0 .loopEnd,
+    .put 1 5, .notify, .takeToken, .swap, .handoff 0,
+    .w 0 .readNow, .w 0 .stop, .w 0 .drain, .w 0 .reset,
+    .tick 6, .w 0 (.fire 6), .w 0 .recvTimer, .w 0 (.pop ⟨1, 5⟩), .w 0 .loopEnd ]
+
+def fairFin (m : Mode) : State := (run m (init 1 0) fairPrefix).getD (init 1 0)
+
+def fairSt (m : Mode) (n : Nat) : State :=
+  if n < 17 then (run m (init 1 0) (fairPrefix.take n)).getD (init 1 0)
+  else { fairFin m with now := 6 + (n - 17) }
+
+def fairLab (n : Nat) : Label := fairPrefix.getD n (.tick 1)
+
+def fairFinLit : State :=
+  { now := 6, sub := [⟨1, 5⟩], pre := [], pend := 0, ntok := false, ppc := .idle, batch := [],
+    ws := [{ pc := .select, heap := [], timer := ⟨none, none⟩, drained := true, armedAt := 0, usedNow := 0 }],
+    done := [⟨⟨1, 5⟩, 6⟩], log := [.exec 1 6, .put 1 5 0] }
+
+theorem fairFin_eq (m : Mode) : fairFin m = fairFinLit := by cases m <;> decide
+
+/-- in the final state (at any later clock value) nothing but `Put` and `tick` is enabled -/
+theorem fairFin_dead (m : Mode) (x : Time) (l : Label) (hp : ∀ id ts, l ≠ .put id ts)
+    (ht : ∀ d, l ≠ .tick d) : step m { fairFinLit with now := x } l = none := by
+  cases l with
+  | tick d => exact absurd rfl (ht d)
+  | put id ts => exact absurd rfl (hp id ts)
+  | notify => rfl
+  | takeToken => rfl
+  | swap => rfl
+  | handoff i => rfl
+  | w i wl =>
+    cases i with
+    | zero => cases wl <;> rfl
+    | succ i => rfl
+
+theorem fairSt_tail (m : Mode) (n : Nat) (h : 17 ≤ n) :
+    fairSt m n = { fairFinLit with now := 6 + (n - 17) } := by
+  simp only [fairSt, Nat.not_lt.mpr h, if_false, fairFin_eq]
+
+theorem fairLab_tail (n : Nat) (h : 17 ≤ n) : fairLab n = .tick 1 := by
+  have hlen : fairPrefix.length ≤ n := h
+  simp [fairLab, List.getD, List.getElem?_eq_none hlen]
+
+theorem fair_next_prefix (m : Mode) : ∀ n, n < 17 → step m (fairSt m n) (fairLab n) = some (fairSt m (n + 1)) := by
+  cases m <;> decide
+
+def demoFair (m : Mode) : FairRun m 1 0 where
+  st := fairSt m
+  lab := fairLab
+  start := by cases m <;> decide
+  next := by
+    intro n
+    by_cases h : n < 17
+    · exact fair_next_prefix m n h
+    · have h' : 17 ≤ n := Nat.not_lt.mp h
+      rw [fairSt_tail m n h', fairSt_tail m (n + 1) (by omega), fairLab_tail n h', step_tick]
+      have : 6 + (n - 17) + 1 = 6 + (n + 1 - 17) := by omega
+      simp only [this]
+  putsPause := ⟨17, fun n hn id ts he => by rw [fairLab_tail n hn] at he; cases he⟩
+  fair := by
+    intro l hp ht _ N hen
+    have := hen (max N 17) (Nat.le_max_left _ _)
+    rw [fairSt_tail m _ (Nat.le_max_right _ _), fairFin_dead m _ l hp ht] at this
+    cases this
+  fairFire := by
+    intro i N hen
+    obtain ⟨v, hv⟩ := hen (max N 17) (Nat.le_max_left _ _)
+    rw [fairSt_tail m _ (Nat.le_max_right _ _), fairFin_dead m _ _ (by simp) (by simp)] at hv
+    cases hv
+  timeDiverges := by
+    intro T
+    refine ⟨17 + T, ?_⟩
+    rw [fairSt_tail m _ (Nat.le_add_right _ _)]
+    show (T : Nat) ≤ 6 + (17 + T - 17)
+    unfold Time at *
+    omega
+
+/-- the hypotheses of `C17_exactly_once` are satisfiable by a run that really submits a task: task 1
+    is submitted at step 3 … -/
+example (m : Mode) : (⟨1, 5⟩ : Task) ∈ ((demoFair m).st 4).sub := by cases m <;> decide
+/-- … is still pending at step 12 … -/
+example (m : Mode) : pendingTasks ((demoFair m).st 12) = [⟨1, 5⟩] := by cases m <;> decide
+/-- … and the theorem says it is eventually executed exactly once (here: from step 16 on) -/
+example (m : Mode) : ∃ n', (((demoFair m).st n').done.map (·.task)).count ⟨1, 5⟩ = 1 :=
+  C17_exactly_once m 1 0 (by decide) (demoFair m) 4 ⟨1, 5⟩ (by cases m <;> decide)
+example (m : Mode) : (((demoFair m).st 16).done.map (·.task)).count ⟨1, 5⟩ = 1 := by cases m <;> decide
+
+end KcpVerif.Props
